@@ -410,3 +410,4 @@ m('C16-m3', 'C16', W + 'worterbuch.rs', """        if !self.deleted_buffer.is_em
             self.send_deleted_event().await?;""", 'C16.b')
 m('C03-m5', 'C03', W + 'server/common/protocol/v0.rs', 'let live_only = msg.live_only.unwrap_or(false);', 'let live_only = msg.live_only.unwrap_or(true);', 'C03.j')
 m('C13-m4', 'C13', W + 'server/common/protocol/mod.rs', """                            v0.process_incoming_message(msg, authorized).await?;""", """                            let _ = (&v0, &msg);""", 'C13.h')
+m('C09-m4', 'C09', W + 'worterbuch.rs', '                        lws.push(kvp);', '                        let _ = kvp;', 'C09.h')
